@@ -2,7 +2,7 @@
 (* Histories of {memory-table changes, SET_LOG_BASE, writes} for C15, as stimuli; model-level sanity. *)
 EXTENDS DirtyLog, Json, TLC
 CONSTANT MaxDepth
-VARIABLES table, logS, hist
+VARIABLES table, logS, hist, rej
 
 \* write classes: (offset class, length class) relative to the region
 WOff == {"0", "1", "4095", "end-1", "end-4096"}
@@ -16,8 +16,8 @@ Letters ==
     \cup {[op |-> "use_ring", rids |-> <<>>, rid |-> 0, S |-> 0, off |-> 0, wo |-> "", wl |-> ""]}
 
 SeqSet(L) == {L[i] : i \in 1..Len(L)}
-vars == <<table, logS, hist>>
-Init == table = {} /\ logS = 0 /\ hist = <<>>
+vars == <<table, logS, hist, rej>>
+Init == table = {} /\ logS = 0 /\ hist = <<>> /\ rej = FALSE
 Step(a) ==
     /\ Len(hist) < MaxDepth
     /\ (a.op = "write" => a.rid \in table)
@@ -25,11 +25,14 @@ Step(a) ==
     /\ (a.op = "add_mem_reg" => a.rid \notin table /\ \A x \in table : DHi(x) <= DLo(a.rid) \/ DHi(a.rid) <= DLo(x))
     /\ table' = CASE a.op = "set_mem_table" -> SeqSet(a.rids) [] a.op = "add_mem_reg" -> table \cup {a.rid} [] OTHER -> table
     /\ logS' = IF a.op = "set_log_base" /\ LogVerdict(table, a.S) = "must_ok" THEN a.S ELSE logS
+    \* a refused SET_LOG_BASE while a log is in force changes nothing in the model -- but histories that pass through one
+    \* are kept apart (rej is part of the view), because an implementation may leave something behind on that error path
+    /\ rej' = (rej \/ (a.op = "set_log_base" /\ logS > 0 /\ LogVerdict(table, a.S) # "must_ok"))
     /\ hist' = Append(hist, a)
     /\ ((a.op \in {"write", "use_ring", "set_log_base"} /\ (logS' > 0 \/ a.op = "set_log_base")) =>
             PrintT(<<"CASE", ToJson([steps |-> Append(hist, a)])>>))
 Next == \E a \in Letters : Step(a)
 Spec == Init /\ [][Next]_vars
 \* model-level: an accepted log always covers every page of the table it was accepted for
-View == <<table, logS, Len(hist)>>
+View == <<table, logS, Len(hist), rej>>
 =============================================================================
